@@ -218,9 +218,9 @@ func foreignFontOp(t *sim.Tape) concOp {
 		// operations of prologue (the reader's budget is three million)
 		file = gen.TinyFont(t)
 		if i := bytes.IndexByte(file, '\n'); i > 0 {
-			file = append(append(append([]byte{}, file[:i+1]...), fmt.Sprintf("1 1 %d { pop } for\n", 80000+t.Choose(60000))...), file[i+1:]...)
+			file = append(append(append([]byte{}, file[:i+1]...), fmt.Sprintf("1 1 %d { pop } for\n", 110000+t.Choose(200000))...), file[i+1:]...)
 		}
-		what = "tiny font with a prologue of 320-560 thousand operations"
+		what = "tiny font with a prologue of 0.3-0.9 million operations"
 	case 5:
 		file = gen.AliasFont(t)
 		what = "font without /FontName, registered under two names"
@@ -382,6 +382,28 @@ errordict /typecheck known 1 (a) add
 	return sb.String()
 }
 
+const edgeMark = "\n#EDGE#\n"
+
+// edgeProbe reads two valid inputs that need slightly more operations than
+// the readers' built-in budgets allow (a few million operations: too expensive
+// for every probe, so it follows only histories made for it).  A fresh
+// process rejects both; so must a process that has read expensive valid inputs
+// before.
+func edgeProbe() string {
+	tf := gen.TinyFont(sim.ReplayTape([]uint32{1, 2}))
+	if i := bytes.IndexByte(tf, '\n'); i > 0 {
+		tf = append(append(append([]byte{}, tf[:i+1]...), "1 1 1000100 { pop } for\n"...), tf[i+1:]...)
+	}
+	g, err := type1.Read(bytes.NewReader(tf))
+	r := "font just over the reader's budget: " + dump.Err(err) + " " + dump.Font(g)
+	d, err := postscript.ReadCMap(strings.NewReader("/CIDInit /ProcSet findresource begin 12 dict begin begincmap /CMapName /E def 1 begincodespacerange <00> <ff> endcodespacerange\n1 1 334000 { pop } for\nendcmap CMapName currentdict /CMap defineresource pop end end\n"))
+	r += "\nCMap just over the reader's budget: " + dump.Err(err)
+	if d != nil {
+		r += " " + dump.Object(d)
+	}
+	return r
+}
+
 func probeFont() *type1.Font {
 	t := sim.ReplayTape([]uint32{0, 3, 1, 4, 1, 5, 9, 2, 6, 5, 3, 5, 8, 9, 7, 9, 3, 2, 3, 8, 4, 6, 2, 6, 4, 3, 3, 8, 3, 2, 7, 9, 5, 0, 2, 8, 8, 4, 1, 9, 7, 1})
 	return gen.GenFont(t, 6)
@@ -423,7 +445,7 @@ func ConcHelperMain() {
 		}
 		if bytes.HasPrefix(line, []byte("PROBE")) {
 			// the pristine probe: this process has run nothing else
-			js, _ := json.Marshal(probeBattery())
+			js, _ := json.Marshal(probeBattery() + edgeMark + edgeProbe())
 			out.Write(js)
 			out.WriteByte('\n')
 			out.Flush()
@@ -710,7 +732,7 @@ func C18() *sim.Check {
 	}
 
 	// isolation over histories: probe0 ; (polluter ; probe)*
-	var probe0 string
+	var probe0, edge0 string
 	iso := &sim.Batch{Name: "isolation", Quick: 12000, Thorough: 250_000, Isolated: true, PerProc: 1, Workers: 16, Env: raceEnv, ChildTimeout: 600 * time.Second, ClassifyAbort: classifyRace, MaxShrink: 150}
 	// probe0 comes from a separate pristine process; this process runs its first
 	// polluter BEFORE its first probe, so state that only the first use fixes
@@ -728,8 +750,28 @@ func C18() *sim.Check {
 		if probe0 == "" {
 			probe0 = pristineProbe()
 		}
+		if k := strings.Index(probe0, edgeMark); k >= 0 {
+			probe0, edge0 = probe0[:k], probe0[k+len(edgeMark):]
+		}
 		n := 1 + t.Choose(7)
 		var hist []string
+		if t.Choose(40) == 0 {
+			// a history made for the budget-edge probe: valid inputs that are
+			// expensive, but well within the readers' budgets, come first
+			tf := gen.TinyFont(t)
+			if i := bytes.IndexByte(tf, '\n'); i > 0 {
+				tf = append(append(append([]byte{}, tf[:i+1]...), fmt.Sprintf("1 1 %d { pop } for\n", 120000+t.Choose(500000))...), tf[i+1:]...)
+			}
+			for k := 1 + t.Choose(2); k > 0; k-- {
+				type1.Read(bytes.NewReader(tf))
+			}
+			postscript.ReadCMap(strings.NewReader(fmt.Sprintf("/CIDInit /ProcSet findresource begin 12 dict begin begincmap /CMapName /X def 1 begincodespacerange <00> <ff> endcodespacerange\n1 1 %d { pop } for\nendcmap CMapName currentdict /CMap defineresource pop end end\n", 50000+t.Choose(250000))))
+			hist = append(hist, "a valid font and a valid CMap that need several hundred thousand operations")
+			c.St.Inc("probe_budget_edge_histories")
+			if e := edgeProbe(); edge0 != "" && e != edge0 {
+				return isoOutcome(c, hist, e, edge0, nil)
+			}
+		}
 		for i := 0; i < n; i++ {
 			var op concOp
 			switch t.Weighted(5, 2, 2, 2) {
